@@ -186,6 +186,10 @@ int main(int argc, char** argv) {
     int n = (int)a.opti("rings", 6);
     std::vector<Path> shapes = ring_shapes(n);
     if (!general_position(Paths(shapes.begin(), shapes.end()))) { fprintf(stderr, "internal: ring family not in general position\n"); return 2; }
+    bool with_open = a.opti("open", 0) != 0;
+    Paths OL = {{{-17, -400}, {-14, 400}}, {{-45, -400}, {-50, 60}, {-40, 400}}};
+    if (with_open) { Paths all(shapes.begin(), shapes.end()); std::vector<char> cl(all.size(), 1); for (auto& l : OL) { all.push_back(l); cl.push_back(0); }
+      if (!general_position_mixed(all, cl)) { fprintf(stderr, "internal: ring family with open paths not in general position\n"); return 2; } }
     // each ring: 0 absent, 1 subject ccw, 2 subject cw, 3 clip ccw, 4 clip cw
     u64 total = 1; for (int i = 0; i < n; ++i) total *= 5;
     bool done = true;
@@ -195,9 +199,12 @@ int main(int argc, char** argv) {
       Paths S, C; u64 x = code;
       for (int i = 0; i < n; ++i) { int d = (int)(x % 5); x /= 5; if (!d) continue; Path p = shapes[i]; if (d == 2 || d == 4) p = reversed(p); (d <= 2 ? S : C).push_back(p); }
       check_input(cx, S, C, Paths());
+      // the same assignment together with open subject paths that run steeply through the gaps between the rings, left of the inner rings and past
+      // their tops: while a nested ring is closed, its nearest contributing neighbour on the left may be an open path, which owns nothing
+      if (with_open && !S.empty() + !C.empty() > 0) { check_input(cx, S, C, OL); rep.add("inputs_with_open_paths"); }
       rep.sample("S=" + pstr(S) + " C=" + pstr(C));
     }
-    if (done) rep.bounds_completed.push_back("rings n=" + std::to_string(n));
+    if (done) rep.bounds_completed.push_back("rings n=" + std::to_string(n) + (with_open ? " (each assignment also with 2 open subject paths crossing the rings)" : ""));
   } else if (scope == "rect") {
     // rectangles on a g-line lattice with spacing 4 (features >= 2 apart); nsub subject rectangles + 1 clip rectangle
     int g = (int)a.opti("g", 4), nsub = (int)a.opti("nsub", 2); i64 step = 4;
